@@ -12,6 +12,8 @@ import common
 import gen
 import wire
 
+NESTED_META = {"k": [1, 2, {"a": [3, 4]}], "m": {"n": {"o": [True, "x"]}, "l": []}, "flag": True, "s": "text"}
+
 RULE = ("cases are histories: (a) a document, valid or invalid (explicit, re-spelt, with defaults, value- and structure-mutated, "
         "with shared sub-objects), built from tracking dict/list subclasses, resolved twice through Graph.fromdict; (b) sequences "
         "of add_deme / add_migration / add_pulse / in-place mutation / resolve steps on one Builder, with later mutation of the "
@@ -169,6 +171,24 @@ def run(chk):
                         dict.__setitem__(v, "junk", 1) if isinstance(v, TDict) else v.__setitem__("junk", 1)
                 if r1[1].asdict() != snap:
                     chk.violation("pure:graph-aliases-input", "changing the input after resolution changed the graph", rep)
+                # later changes to a returned dictionary form do not reach the graph either: every container of
+                # asdict() / asdict_simplified() is changed in place, nested metadata included
+                gm = outcome(lambda: demes.Graph.fromdict(dict(copy.deepcopy(plain(before)), metadata=copy.deepcopy(NESTED_META))))
+                if gm[0] == "ok":
+                    g = gm[1]
+                    snap = copy.deepcopy(g.asdict())
+                    msnap = copy.deepcopy(g.metadata)
+                    for form in (g.asdict(), g.asdict_simplified(), g.asdict()):
+                        for p, v in list(gen._paths(form)):
+                            if isinstance(v, list):
+                                v.append("junk")
+                                v.reverse()
+                            elif isinstance(v, dict):
+                                v["junk"] = 1
+                        if not wire.deep_eq(g.asdict(), snap) or not wire.deep_eq(g.metadata, msnap):
+                            chk.violation("pure:graph-aliases-output", "changing a returned dictionary form changed the graph",
+                                          dict(rep, metadata=NESTED_META))
+                            break
         # ---- a Builder made from the document: resolving does not change the Builder's data ----
         for kind, d in docs:
             if kind == "shared":
